@@ -369,6 +369,7 @@ fn check_type<T: Jetty>(tname: &str, ctx: &Ctx, shard: usize, nshards: usize, ti
 
 fn main() {
     let ctx = Ctx::from_args("C09");
+    ndv_checks::warm_up_f32();
     let acc = ctx.parallel(|shard, nshards| {
         let mut acc = Acc::new();
         let mut t = 0u64;
